@@ -23,7 +23,7 @@ RULE = ("job lifecycles (enqueue with args bucket, consume, actor run, ack/nack/
 ASSUMPTIONS = ["ground truth is taken by a harness-side class-level wrapper around _middleware_wrapper.__call__ (no repository edit)", "virtual time",
                "the operation's first effect = the first event logged by the broker-boundary recorder inside the wrapped function"]
 EVAL_COUNTER = "operations_judged"
-REQUIRED = ["effects_located", "actor_run_effects_located", "operations_judged", "nested_operations_seen", "failed_operations_seen", "differential_pairs", "two_connection_runs", "op_actor_run", "op_store_bucket", "op_consume"]
+REQUIRED = ["effects_located", "actor_run_effects_located", "operations_judged", "nested_operations_seen", "failed_operations_seen", "differential_pairs", "two_connection_runs", "op_actor_run", "op_store_bucket", "op_consume", "middleware_method_calls"]
 CASE_TIMEOUT = 150
 
 SUBSETS = ["none", "recording", "raising", "slow", "sync", "partial", "mixed"]
@@ -137,6 +137,31 @@ def make_subscribers(kind, label, signals, rig_log, names):
     return subs
 
 
+def make_middleware_object(label, rig_log, names):
+    """A middleware in the documented class form: an instance whose methods are named after signals (bound methods: `self`
+    is part of their argspec), next to helper methods that are not signals and must never be called."""
+    ns = {}
+    for name in names:
+        def mk(name=name):
+            if len(name) % 2:
+                async def m(self, key=None, result=None):
+                    rig_log.add(k="method_signal", name=name, conn=label)
+            else:
+                def m(self, payload=None, queue_name=None):
+                    rig_log.add(k="method_signal", name=name, conn=label)
+            m.__name__ = name
+            return m
+        ns[name] = mk()
+
+    def helper(self, *a, **kw):
+        rig_log.add(k="method_signal", name="<helper called>", conn=label)
+
+    ns["helper"] = helper
+    ns["_before_nothing"] = helper
+    ns["after"] = helper
+    return type("RecordingMiddleware", (), ns)()
+
+
 async def lifecycle(loop, case, subset, record):
     """One scenario run. Returns dict(truth=[...], signals=[...], ops=[(name, outcome)], final=snapshot, violations=[])"""
     from repid import Job
@@ -178,6 +203,8 @@ async def lifecycle(loop, case, subset, record):
             for fl in flavours:
                 for f in make_subscribers(fl, lab, signals, w.log, names):
                     c.middleware.add_subscriber(f)
+            if subset in ("partial", "mixed"):
+                c.middleware.add_middleware(make_middleware_object(lab, w.log, names))
         for c in conns.values():
             await c.connect()
         routers = {}
@@ -387,6 +414,12 @@ def judge_shapes(case, subset, rec, out, stats):
     full = collections.Counter((s["conn"], s["name"]) for s in rec["signals"])
     bare = collections.Counter((e["conn"], e["name"]) for e in rec["events"] if e.get("k") == "noargs_signal")
     stats["noargs_subscriber_calls"] += sum(bare.values())
+    meth = collections.Counter((e["conn"], e["name"]) for e in rec["events"] if e.get("k") == "method_signal")
+    stats["middleware_method_calls"] += sum(meth.values())
+    for k in sorted(set(full) | set(meth)):
+        if full[k] != meth[k]:
+            out.append(V("missing_before" if k[1].startswith("before_") else "missing_after", case["kind"], "middleware-object-method", f"{k[1]} on {k[0]}: the plain subscriber was called {full[k]} times, the middleware object's method {meth[k]} times"))
+            break
     for k in sorted(set(full) | set(bare)):
         if full[k] != bare[k]:
             out.append(V("missing_before" if k[1].startswith("before_") else "missing_after", case["kind"], "subscriber-without-parameters", f"{k[1]} on {k[0]}: the fully declared subscriber was called {full[k]} times, the one without parameters {bare[k]} times"))
